@@ -61,6 +61,14 @@ def pre_kwargs(case, world_one=False):
     for k in HP_KEYS:
         if k in hp:
             kw[k] = hp_callable(hp[k])
+            # constants handed over as 0-d tensors / numpy scalars (values read from a config tensor or an array) instead of Python floats
+            if case.get('hp_form') and k in ('kl_clip', 'lr') and type(kw[k]) is float:
+                if case['hp_form'] == 'tensor0d':
+                    import torch
+                    kw[k] = torch.tensor(kw[k], dtype=torch.float64)
+                elif case['hp_form'] == 'numpy':
+                    import numpy
+                    kw[k] = numpy.float64(kw[k])
     if case.get('loss_scale') is not None:
         kw['grad_scaler'] = (lambda s=case['loss_scale']: s)
     return kw
@@ -267,6 +275,12 @@ class RankRunner:
             elif kind == 'reset_batch':
                 if op.get('ranks') is None or self.rank in op['ranks']:
                     self.pre.reset_batch()
+            elif kind == 'cast':
+                # the user casts the model in the middle of a run (model.double() / model.float()); later batches come in the new dtype
+                self.pd = kmodel.dt(op['dtype'])
+                self.model.to(self.pd)
+                if self.twin is not None:
+                    self.twin.to(self.pd)
             elif kind == 'sched_step':
                 if self.sched is not None:
                     self.sched.step()
@@ -316,8 +330,11 @@ class RankRunner:
                 sd = self.pre.state_dict(include_factors=op.get('include_factors', True))
                 blob = pickle.dumps(sd)
                 rec['saved'] = pickle.loads(blob) if 'state' in self.observe else None
-                new_model = kmodel.build_model(c['spec'], self.pd)
-                kmodel.copy_params(self.model, new_model)
+                # fresh_dtype: the resuming script builds the model in its original dtype, constructs the preconditioner, loads the K-FAC
+                # state and only then casts the model (and loads the weights) - the order in which the original run did these things
+                new_model = kmodel.build_model(c['spec'], kmodel.dt(op['fresh_dtype']) if op.get('fresh_dtype') else self.pd)
+                if not op.get('fresh_dtype'):
+                    kmodel.copy_params(self.model, new_model)
                 kw = dict(self.kw)
                 if op.get('perturb_fresh'):
                     # the fresh preconditioner is built with *other* constants: the state must restore the saved ones
@@ -333,6 +350,9 @@ class RankRunner:
                     warnings.simplefilter('ignore')
                     new_pre = self.KFACPreconditioner(new_model, **kw)
                     new_pre.load_state_dict(state, compute_inverses=op.get('compute_inverses', True))
+                if op.get('fresh_dtype'):
+                    new_model.to(self.pd)
+                    kmodel.copy_params(self.model, new_model)
                 self.model, self.pre = new_model, new_pre
                 if self.sched is not None:
                     self._mk_sched()
